@@ -604,6 +604,8 @@ def gen_conn(rng, tier, idx):
         line(c, u, x, True, "second session token of u on u's connection")
         if rng.chance(1, 2):
             line(d, u, x, True, "second session token of u on v's connection")
+        h.add(f"auth_tok_check {hx('@{' + x + '}')}", op="tokcheck", live=True, u=u, show=f"validate_session_token(second token of {u}) after successful uses")
+        h.add(f"auth_tok_check {hx('@{auth:' + c + '}')}", op="tokcheck", live=True, u=u, show=f"validate_session_token(AUTH token of {u}) after successful uses")
         h.http(u, sign(ku, "PING"), "PING", "ping", "PING", {"valid": True, "user": u}, note="http header before the event")
         # the event, through the AuthManager / an admin command - never through the connection itself
         if ev == "revkey_cmd":
@@ -620,6 +622,8 @@ def gen_conn(rng, tier, idx):
         x_ok = ev in ("tok_revoke", "none")
         tag = {"revkey_cmd": "after REVOKE KEY", "revkey_mgr": "after revoke_key", "sess_revoke": "after revoke_user_sessions",
                "tok_revoke": "after revoke_session_token", "none": "control, nothing revoked"}[ev]
+        h.add(f"auth_tok_check {hx('@{' + x + '}')}", op="tokcheck", live=x_ok, u=u if x_ok else None, show=f"validate_session_token(second token of {u}) {tag}")
+        h.add(f"auth_tok_check {hx('@{auth:' + c + '}')}", op="tokcheck", live=authtok_ok, u=u if authtok_ok else None, show=f"validate_session_token(AUTH token of {u}) {tag}")
         # the SAME connection again, every form, the token twice
         for k in range(2):
             line(c, u, f"auth:{c}", authtok_ok, f"own AUTH token RE-USED on the same connection {tag}")
